@@ -27,7 +27,7 @@ import json,glob
 fs=sorted(glob.glob('/tmp/verif_seeded/replays/${prop}_quick_*.json'))
 if not fs: print("none\t-\t-")
 else:
-    d=json.load(open(fs[0])); print(d.get('kind'),d.get('broken'),''.join(ch if 32 <= ord(ch) < 127 else '?' for ch in str(d.get('why'))[:160]),sep='\t')
+    d=json.load(open(fs[0])); print(d.get('kind'),d.get('broken'),''.join(ch if 32 <= ord(ch) < 127 else '?' for ch in str(d.get('why'))[:160].replace(chr(10),' ')),sep='\t')
 PY
 )
   echo -e "$id\trc=$rc\t$((t1-t0))s\t$verdict" >> $OUT
